@@ -343,6 +343,50 @@ def check_fit(ml, cls, prepkind, pattern, dt, seed, cache):
   return None
 
 
+def check_switch(ml, cls, kind_a, kind_b, seed, cache):
+  """the SAME estimator object is used with preprocessor A, then given preprocessor B through set_params and used again with
+  indicators: everything it then computes must equal what it computes from the formed data B[indicators]
+  ("indices plus a preprocessor are interchangeable with explicitly formed points / tuples" -- for the preprocessor it has)"""
+  rng = np.random.RandomState(seed)
+  pool, idx, args = fit_problem(rng, cls, 'repeats')
+  # the second pool keeps the cluster structure (labels stay meaningful) but is a different array: an affine image of the first
+  Q = np.array([[0.8, -0.6, 0.0], [0.6, 0.8, 0.0], [0.0, 0.0, 1.0]])
+  pool_b = (pool * np.array([1.0, 2.0, 0.5])).dot(Q) + np.array([3.0, -1.0, 2.0])
+  test_idx = rng.randint(0, len(pool), size=7)
+  prep_a, _, _ = make_prep(kind_a, pool)
+  prep_b, Xb, _ = make_prep(kind_b, pool_b)
+  key = (cls, 'switch', seed)
+  if key not in cache:
+    cache[key] = fit_outcome(ml, cls, None, Xb[idx], args, Xb[test_idx], None)
+  o_formed = cache[key]
+
+  def go():
+    est = new_estimator(ml, cls, prep_a)
+    with single_thread():
+      est.fit(idx, *args)
+      est.set_params(preprocessor=prep_b)
+      est.fit(idx, *args)
+    out = dict(components_=np.array(est.components_))
+    if KIND[cls][0] == 'pairs':
+      out['threshold_'] = np.array([est.threshold_])
+    out['transform(fresh)'] = est.transform(test_idx)
+    return out
+  o_sw = outcome(go)
+  inp = dict(estimator=cls, params=dict(FIT_PARAMS.get(cls, {}), random_state=42), first_preprocessor=kind_a, second_preprocessor=kind_b,
+             history='fit(indicators) with A; set_params(preprocessor=B); fit(indicators)', pool_A=pool.tolist(), pool_B=pool_b.tolist(),
+             indicators=np.asarray(idx).tolist(), fit_args=[np.asarray(a).tolist() for a in args])
+  tag = 'fit/indicators-equal-formed-after-preprocessor-replaced'
+  if o_formed[0] == 'raised':
+    return None if (o_sw[0] == 'raised' and o_sw[1] == o_formed[1]) else \
+        dict(tag=tag, observed='formed data: %s; after the switch: %s' % (describe(o_formed), describe(o_sw)), input=inp)
+  if o_sw[0] == 'raised':
+    return dict(tag=tag, observed='%s, but fit on the formed data B[indicators] succeeded' % describe(o_sw), input=inp)
+  for attr, ref in o_formed[1].items():
+    if not same(o_sw[1][attr], ref):
+      return dict(tag=tag, observed='%s differs from the fit on B[indicators] (the estimator still resolves indicators against its earlier preprocessor?)' % attr, input=inp)
+  return None
+
+
 # ----------------------------------------------------------------------------------------------- cases
 
 def _tags(t, prepkind, extra=()):
@@ -410,6 +454,19 @@ def cases(tier, seed):
         desc = '%s.fit prep=%s indicators=%s/%s seed=%d' % (cls, prepkind, dt, pattern, s)
         yield (desc, _tags(KIND[cls][1], prepkind, F_PREPARE),
                _guard(lambda cls=cls, prepkind=prepkind, pattern=pattern, dt=dt, s=s: check_fit(ml, cls, prepkind, pattern, dt, s, cache), 'fit', desc))
+  # ---- the preprocessor is replaced on a used estimator
+  yield from _switch_cases(ml, tier, seed, cache)
+
+
+def _switch_cases(ml, tier, seed, cache):
+  pairs_ = (('ndarray', 'ndarray'), ('callable', 'ndarray')) if tier == 'quick' else \
+      (('ndarray', 'ndarray'), ('callable', 'ndarray'), ('list', 'ndarray-F'), ('ndarray', 'callable'), ('ndarray', 'list'))
+  for cls in PUBLIC:
+    for ka, kb in pairs_:
+      s = seed * 100 + 50
+      desc = '%s.fit prep=%s then set_params(preprocessor=%s) and refit seed=%d' % (cls, ka, kb, s)
+      yield (desc, _tags(KIND[cls][1], kb, F_PREPARE),
+             _guard(lambda cls=cls, ka=ka, kb=kb, s=s: check_switch(ml, cls, ka, kb, s, cache), 'fit', desc))
 
 
 def _signature(desc, tag):
